@@ -446,6 +446,18 @@ class SymEx:
                 nxt = []
                 for c in cur:
                     for y, v in self.ev(item.context_expr, c):
+                        if isinstance(item.context_expr, ast.Call) and y.exc is None:
+                            # with cm(...) as x, cm a @contextmanager generator of the package (read through above): x is what it yields
+                            tg = self._resolve_dyn(item.context_expr, c)
+                            if len(tg) == 1 and any(ast.unparse(d_.func if isinstance(d_, ast.Call) else d_).split('.')[-1] == 'contextmanager' for d_ in tg[0].node.decorator_list):
+                                ys = [e_ for e_ in y.events[len(c.events):] if e_.kind == 'yield']
+                                after = False
+                                for st_ in ast.walk(tg[0].node):
+                                    if isinstance(st_, (ast.Try,)) and (st_.finalbody or st_.handlers):
+                                        after = True
+                                if len(ys) != 1:
+                                    raise Undecided('context manager %s does not yield exactly once at %s' % (tg[0].qn, self.site(s)))
+                                v = ys[0].value
                         if item.optional_vars is not None and y.exc is None:
                             y = self.assign(item.optional_vars, v, y, s)
                         nxt.append(y)
